@@ -193,6 +193,11 @@ class Ladder(object):
             if b[0] == "builtin" and e.id in ("int", "float", "complex", "bool", "str"):
                 return Builtin(e.id)
             raise _Unknown("name %s" % e.id, e)
+        if isinstance(e, ast.Dict) and all(k is not None for k in e.keys):
+            return {self._plain(self.ev(k, env), k): self.ev(v, env) for k, v in zip(e.keys, e.values)}
+        if isinstance(e, (ast.Tuple, ast.List)) and isinstance(getattr(e, "ctx", None), ast.Load):
+            vals = [self.ev(x, env) for x in e.elts]
+            return tuple(vals) if isinstance(e, ast.Tuple) else vals
         if isinstance(e, ast.UnaryOp) and isinstance(e.op, (ast.USub, ast.UAdd)):
             v = self.ev(e.operand, env)
             if isinstance(v, (int, float)) and not isinstance(v, bool):
@@ -206,10 +211,7 @@ class Ladder(object):
                 return Text.of((a.rep if isinstance(a, Text) else a) + (b.rep if isinstance(b, Text) else b))
             raise _Unknown("arithmetic", e)
         if isinstance(e, ast.UnaryOp) and isinstance(e.op, ast.Not):
-            v = self.ev(e.operand, env)
-            if isinstance(v, bool):
-                return not v
-            raise _Unknown("not of %r" % (v,), e)
+            return not self.truth(self.ev(e.operand, env), e.operand)
         if isinstance(e, ast.BoolOp):
             is_and = isinstance(e.op, ast.And)
             v = None
@@ -254,6 +256,10 @@ class Ladder(object):
                     raise _Exc("TypeError", e)
                 res = needle in hay
                 return res if isinstance(op, ast.In) else not res
+            if isinstance(op, (ast.In, ast.NotIn)) and isinstance(r, ast.Name) and isinstance(env.get(r.id), (dict, list, tuple, set, frozenset)):
+                v = self._plain(self.ev(l, env), l)
+                res = v in env[r.id]
+                return res if isinstance(op, ast.In) else not res
             if isinstance(op, (ast.In, ast.NotIn)):
                 v = self.ev(l, env)
                 cs = self.const_container(r, e)
@@ -280,7 +286,7 @@ class Ladder(object):
                     return {ast.Lt: a < b, ast.LtE: a <= b, ast.Gt: a > b, ast.GtE: a >= b}[type(op)]
             raise _Unknown("comparison %s" % src(e, 30), e)
         if isinstance(e, ast.Subscript) and isinstance(e.value, ast.Name) and isinstance(env.get(e.value.id), dict):
-            k = self.ev(e.slice, env)
+            k = self._plain(self.ev(e.slice, env), e.slice)
             if k in env[e.value.id]:
                 return env[e.value.id][k]
             raise _Exc("KeyError", e)
@@ -394,6 +400,11 @@ class Ladder(object):
                     except (IndexError, KeyError):
                         raise _Exc("IndexError", e)
                 return Val("str", "bare")
+            if isinstance(recv, dict) and f.attr in ("values", "keys", "items") and not e.args:
+                return list(getattr(recv, f.attr)())
+            if isinstance(recv, dict) and f.attr == "get" and e.args:
+                k_ = self._plain(self.ev(e.args[0], env), e)
+                return recv.get(k_, self.ev(e.args[1], env) if len(e.args) > 1 else None)
             raise _Unknown("method %s of %r" % (f.attr, recv), e)
         if isinstance(f, ast.Name) and f.id == "isinstance" and len(e.args) == 2 and self.prog.lookup("isinstance", e)[0] == "builtin":
             v = self.ev(e.args[0], env)
@@ -405,7 +416,14 @@ class Ladder(object):
                 return "NoneType" in names or any(isinstance(c, ast.Call) and isinstance(c.func, ast.Name) and c.func.id == "type" and c.args and isinstance(c.args[0], ast.Constant)
                                                   and c.args[0].value is None for c in ast.walk(e.args[1]))
             return vt in names or (vt == "bool" and "int" in names) or "object" in names
+        if isinstance(f, ast.Attribute) and f.attr in ("values", "keys", "items") and isinstance(f.value, ast.Name) and isinstance(env.get(f.value.id), dict) and not e.args:
+            return list(getattr(env[f.value.id], f.attr)())
         args = [self.ev(a, env) for a in e.args]
+        if isinstance(f, ast.Name) and f.id in ("sum", "any", "all", "min", "max") and len(args) == 1 and isinstance(args[0], (list, tuple)) \
+                and all(isinstance(x, (int, bool)) for x in args[0]) and self.prog.lookup(f.id, e)[0] == "builtin":
+            return {"sum": sum, "any": any, "all": all, "min": min, "max": max}[f.id](args[0])
+        if isinstance(f, ast.Name) and f.id == "len" and len(args) == 1 and isinstance(args[0], (dict, list, tuple)):
+            return len(args[0])
         if isinstance(f, ast.Name) and f.id == "len" and len(args) == 1 and self.prog.lookup("len", e)[0] == "builtin":
             if isinstance(args[0], Text):
                 return len(args[0].rep)
@@ -462,6 +480,14 @@ class Ladder(object):
         names = {n.id for n in ast.walk(type_expr) if isinstance(n, ast.Name)} | {n.attr for n in ast.walk(type_expr) if isinstance(n, ast.Attribute)}
         return name in names or "Exception" in names or "BaseException" in names or (name in ("KeyError", "IndexError") and "LookupError" in names)
 
+    def _plain(self, v, at):
+        """a Python value for use as a key / element: the representative of a text"""
+        if isinstance(v, Text):
+            return v.rep
+        if isinstance(v, (str, int, float, bool, type(None), tuple)):
+            return v
+        raise _Unknown("a plain value is needed, got %r" % (v,), at)
+
     def _const_str(self, e, at):
         v = self.folder.fold(e, {}, at)
         return v if isinstance(v, str) else None
@@ -476,6 +502,28 @@ class Ladder(object):
                 elif isinstance(x, ast.Attribute) and x.attr in ("X", "VERBOSE"):
                     fl |= re.X
         return fl
+
+    def _add(self, a, b, minus, at):
+        if all(isinstance(x, int) and not isinstance(x, bool) for x in (a, b)):
+            return a - b if minus else a + b
+        if not minus and all(isinstance(x, (str, Text)) for x in (a, b)):
+            out = (a.rep if isinstance(a, Text) else a) + (b.rep if isinstance(b, Text) else b)
+            return Text.of(out) if isinstance(a, Text) else out
+        raise _Unknown("augmented assignment of %r and %r" % (a, b), at)
+
+    def _string_iter(self, s, env):
+        """(characters, with index?) when the loop runs over a text held in the environment: `for ch in text`, `for i, ch in enumerate(text)`"""
+        it = s.iter
+        with_index = False
+        if isinstance(it, ast.Call) and isinstance(it.func, ast.Name) and it.func.id == "enumerate" and len(it.args) == 1 and isinstance(s.target, ast.Tuple) \
+                and len(s.target.elts) == 2 and all(isinstance(t, ast.Name) for t in s.target.elts):
+            it, with_index = it.args[0], True
+        elif not isinstance(s.target, ast.Name):
+            return None
+        if isinstance(it, ast.Name) and isinstance(env.get(it.id), (str, Text)):
+            v = env[it.id]
+            return (v.rep if isinstance(v, Text) else v), with_index
+        return None
 
     def _literal_seq(self, e, env):
         """the tuple / list display an iterable denotes: written in place, or a module constant"""
@@ -496,6 +544,42 @@ class Ladder(object):
                     if s.targets[0].id == self.tracked:
                         raise
                     env[s.targets[0].id] = Unk(u.why)  # e.g. an offset computed from positions: only a later use of it matters
+            elif isinstance(s, ast.AugAssign) and isinstance(s.op, (ast.Add, ast.Sub)):
+                delta = self.ev(s.value, env)
+                if isinstance(s.target, ast.Name):
+                    cur = self.ev(ast.copy_location(ast.Name(id=s.target.id, ctx=ast.Load()), s.target), env)
+                    env[s.target.id] = self._add(cur, delta, isinstance(s.op, ast.Sub), s)
+                elif isinstance(s.target, ast.Subscript) and isinstance(s.target.value, ast.Name) and isinstance(env.get(s.target.value.id), dict):
+                    k = self._plain(self.ev(s.target.slice, env), s)
+                    d_ = env[s.target.value.id]
+                    if k not in d_:
+                        raise _Exc("KeyError", s)
+                    d_[k] = self._add(d_[k], delta, isinstance(s.op, ast.Sub), s)
+                else:
+                    raise _Unknown("augmented assignment %s" % src(s, 40), s)
+            elif isinstance(s, ast.Assign) and len(s.targets) == 1 and isinstance(s.targets[0], ast.Subscript) and isinstance(s.targets[0].value, ast.Name) \
+                    and isinstance(env.get(s.targets[0].value.id), dict):
+                env[s.targets[0].value.id][self._plain(self.ev(s.targets[0].slice, env), s)] = self.ev(s.value, env)
+            elif isinstance(s, ast.For) and self._string_iter(s, env) is not None:
+                # a scan over the characters of a text: followed character by character (bounded)
+                seq, with_index = self._string_iter(s, env)
+                if len(seq) > 400:
+                    raise _Unknown("a text of %d characters" % len(seq), s)
+                broke = False
+                for i_, ch_ in enumerate(seq):
+                    if with_index:
+                        env[s.target.elts[0].id], env[s.target.elts[1].id] = i_, ch_
+                    else:
+                        env[s.target.id] = ch_
+                    try:
+                        self.block(s.body, env)
+                    except _Continue:
+                        continue
+                    except _Break:
+                        broke = True
+                        break
+                if not broke:
+                    self.block(s.orelse, env)
             elif isinstance(s, ast.If):
                 self.block(s.body if self.truth(self.ev(s.test, env), s.test) else s.orelse, env)
             elif isinstance(s, ast.With) and len(s.items) == 1 and isinstance(s.items[0].context_expr, ast.Call) \
@@ -827,3 +911,86 @@ def _kind_of(s_):
 def enclosing_fn_of(prog, node):
     from sa.model import enclosing_fn
     return enclosing_fn(node)
+
+
+# ---------------------------------------------------------------------------- SCAN-END
+SCAN_SAMPLES = [
+    # (what follows the announcement, the text the scan must hand to the ladder, kind)
+    ("5. Tail.", "5", "number-then-prose"),
+    ("3.14. Tail.", "3.14", "decimal-then-prose"),
+    ("mnist", "mnist", "word-at-end"),
+    ("mnist.", "mnist", "word-with-full-stop"),
+    ('"model.h5"', '"model.h5"', "quoted-with-dot"),
+    ('"a.b". More prose.', '"a.b"', "quoted-with-dot-then-prose"),
+    ("'v1.2.3'. Tail", "'v1.2.3'", "single-quoted-with-dots"),
+    ("(1, 2). Tail.", "(1, 2)", "bracketed-then-prose"),
+    ("[1.5, 2]. Tail.", "[1.5, 2]", "bracketed-decimal-then-prose"),
+    ("(np.empty(0), np.empty(0))", "(np.empty(0), np.empty(0))", "nested-brackets-at-end"),
+    ("```len(xs)```. Tail.", "len(xs)", "expression-then-prose"),
+    ("```np.float32```. Tail.", "np.float32", "fenced-dotted-name-then-prose"),
+    ("```(a or b).shape```", "(a or b).shape", "fenced-attribute-after-bracket"),
+    (("Number of units (defaults to ", "5)."), "5", "announcement-inside-parentheses"),
+]
+
+
+def rule_scan_end(prog, rep, tier, anchor="defaults_utils.extract_default"):
+    """SCAN-END (C17, C01, C08): where the announced value stops.  The reader scans the text behind the announcement character by
+    character; the scan loop and the straight-line statements between it and the conversion ladder are followed on sample texts -
+    a number, a decimal, a word, a quoted string with a full stop in it, bracketed values, an expression, each with and without
+    prose behind it - and the text handed to the ladder must be the value, nothing less (cut at a dot inside quotes or a decimal)
+    and nothing more (prose behind a bracketed value)."""
+    fi = prog.fn(anchor)
+    PROG[0] = prog
+    var, stmts, pre = _find_ladder(fi)
+    if not stmts:
+        raise AnalysisError("SCAN-END: the conversion ladder was not found in %s" % anchor)
+    body = fi.node.body
+    loop_i = next((i for i, s_ in enumerate(body) if isinstance(s_, (ast.For, ast.While)) and any(
+        isinstance(t, ast.Name) and t.id == var and isinstance(t.ctx, ast.Store) for t in ast.walk(s_))), None)
+    if loop_i is None:
+        # the scan was extracted: `var = helper(text)` or `idx = helper(text)`: start at the statement after the search
+        loop_i = None
+    # the search that finds the announcement: `<start>, <end>, <found> = location_within(line, ...)`
+    search_i, names = None, None
+    for i, s_ in enumerate(body):
+        if isinstance(s_, ast.Assign) and isinstance(s_.targets[0], ast.Tuple) and len(s_.targets[0].elts) == 3 and all(isinstance(t, ast.Name) for t in s_.targets[0].elts) \
+                and isinstance(s_.value, ast.Call):
+            search_i, names = i, [t.id for t in s_.targets[0].elts]
+    ladder_i = next(i for i, s_ in enumerate(body) if s_ is stmts[0])
+    if search_i is None:
+        raise AnalysisError("SCAN-END: the announcement search (three results unpacked from one call) was not found in %s" % anchor)
+    # statements between the search and the ladder, without the early `return` for "no announcement"
+    between = [s_ for s_ in body[search_i + 1:ladder_i] if not (isinstance(s_, ast.If) and any(isinstance(x, ast.Return) for x in ast.walk(s_)))]
+    line_param = fi.params()[0]
+    folder = Folder(prog)
+    resolved = 0
+    for tail, want, kind in SCAN_SAMPLES:
+        head = "the x. Defaults to "
+        if isinstance(tail, tuple):
+            head, tail = tail
+        env = {line_param: head + tail, names[0]: len(head) - len("defaults to "), names[1]: len(head), names[2]: "defaults to "}
+        lad = Ladder(prog, folder)
+        lad.tracked = var
+        inst = "scan of %r" % tail
+        try:
+            lad.block(between, env)
+            got = env.get(var)
+            got = got.rep if isinstance(got, Text) else got
+            if not isinstance(got, str):
+                raise _Unknown("the scanned value is %r" % (got,))
+            resolved += 1
+            if got == want:
+                rep.holds("SCAN-END", inst, loc(prog, body[search_i + 1]), "hands %r to the ladder" % got)
+            else:
+                rep.violation(Finding(
+                    "SCAN-END", anchor, "scan:%s:%s" % (kind, "cut-short" if want.startswith(got) or len(got) < len(want) else "runs-on"),
+                    "behind the announcement stands %r; the scan hands %r to the conversion ladder instead of %r: %s" % (
+                        tail, got, want, "the value is cut short (a full stop inside it ended the scan)" if len(got) < len(want)
+                        else "what follows the value is taken for part of it (the scan no longer stops at the full stop behind it)"), loc(prog, body[search_i + 1])))
+        except _Exc as x:
+            resolved += 1
+            rep.violation(Finding("SCAN-END", anchor, "scan:%s:%s" % (kind, x.name), "scanning %r raises %s at `%s`" % (tail, x.name, src(x.at, 40)), loc(prog, x.at)))
+        except (_Unknown, _Return) as u:
+            rep.ob("SCAN-END", inst, "unresolved", loc(prog, getattr(u, "at", None) or body[search_i + 1]), "not interpreted: %s" % getattr(u, "why", "the scan returns"))
+    if resolved < 6:
+        raise AnalysisError("SCAN-END: only %d of %d sample texts could be followed through the scan of %s" % (resolved, len(SCAN_SAMPLES), anchor))
